@@ -4,6 +4,7 @@ package cluster
 
 import (
 	"context"
+	"fmt"
 
 	"github.com/WuKongIM/WuKongIM/pkg/cluster/control"
 	"github.com/WuKongIM/WuKongIM/pkg/cluster/propose"
@@ -24,36 +25,78 @@ func (p verifProposer) ProposeResult(ctx context.Context, req propose.Request) (
 	return p.f(ctx, req.Key, req.Command)
 }
 
-// VerifNewMessageEventNode builds a started single-node Node (node 1 leads slot 1, which owns
-// all `hashSlots` hash slots) whose only live parts are the router, the real message event
-// stream cache and the given proposer seam.  Node.AppendMessageEvent then runs the real
-// appendMessageEventLocal / appendMessageEventFinishLocal code.
-func VerifNewMessageEventNode(hashSlots uint16, maxSessions int, f VerifProposeFunc) (*Node, error) {
-	router := routing.NewRouter()
-	snap := control.Snapshot{
-		Revision:     1,
+// verifRouteSnapshot: two data nodes, two physical Slots (Slot 1 placed on node 1, Slot 2 on
+// node 2); owners[h] in {1,2} is the Slot that owns hash slot h.
+func verifRouteSnapshot(revision uint64, owners []uint32) (control.Snapshot, error) {
+	if len(owners) == 0 {
+		return control.Snapshot{}, fmt.Errorf("no hash slots")
+	}
+	var ranges []control.HashSlotRange
+	for h, o := range owners {
+		if o != 1 && o != 2 {
+			return control.Snapshot{}, fmt.Errorf("bad owner %d", o)
+		}
+		if len(ranges) > 0 && ranges[len(ranges)-1].SlotID == o {
+			ranges[len(ranges)-1].To = uint16(h)
+			continue
+		}
+		ranges = append(ranges, control.HashSlotRange{From: uint16(h), To: uint16(h), SlotID: o})
+	}
+	return control.Snapshot{
+		Revision:     revision,
 		ControllerID: 1,
 		Nodes: []control.Node{
 			{NodeID: 1, Addr: "127.0.0.1:1001", Roles: []control.Role{control.RoleData}, Status: control.NodeAlive},
+			{NodeID: 2, Addr: "127.0.0.1:1002", Roles: []control.Role{control.RoleData}, Status: control.NodeAlive},
 		},
 		Slots: []control.SlotAssignment{
-			{SlotID: 1, DesiredPeers: []uint64{1}, ConfigEpoch: 1, PreferredLeader: 1},
+			{SlotID: 1, DesiredPeers: []uint64{1, 2}, ConfigEpoch: 1, PreferredLeader: 1},
+			{SlotID: 2, DesiredPeers: []uint64{1, 2}, ConfigEpoch: 1, PreferredLeader: 2},
 		},
-		HashSlots: control.HashSlotTable{Revision: 1, Count: hashSlots, Ranges: []control.HashSlotRange{{From: 0, To: hashSlots - 1, SlotID: 1}}},
-	}
-	if err := router.UpdateControlSnapshot(snap); err != nil {
-		return nil, err
-	}
-	router.UpdateSlotLeaders([]routing.SlotStatus{{SlotID: 1, Leader: 1, LeaderTerm: 1}})
-	n := &Node{proposer: verifProposer{f: f}, router: router}
+		HashSlots: control.HashSlotTable{Revision: revision, Count: uint16(len(owners)), Ranges: ranges},
+	}, nil
+}
+
+// VerifNewMessageEventNode builds a started Node (local node id 1) whose live parts are the
+// router, the real message event stream cache and the given proposer seam.  Initially Slot 1
+// (led by node 1) owns all hash slots and Slot 2 is led by node 2.  Node.AppendMessageEvent
+// then runs the real appendMessageEventLocal / appendMessageEventFinishLocal code.
+func VerifNewMessageEventNode(hashSlots uint16, maxSessions int, f VerifProposeFunc) (*Node, error) {
+	n := &Node{proposer: verifProposer{f: f}, router: routing.NewRouter()}
 	n.cfg.NodeID = 1
 	n.messageEventStreamCache = newMessageEventStreamCache(maxSessions)
 	n.started.Store(true)
+	owners := make([]uint32, hashSlots)
+	for i := range owners {
+		owners[i] = 1
+	}
+	if err := n.VerifUpdateRoute(1, 1, 2, owners); err != nil {
+		return nil, err
+	}
 	return n, nil
 }
 
-// VerifLoseMessageEventStreamCache simulates the loss of the leader's in-memory stream cache
-// (process restart / leadership moved to a node with an empty cache).
+// VerifUpdateRoute installs a new control snapshot and Slot leaders through the REAL
+// updateRouteAuthorityTable path, i.e. the real publishRouteAuthorityTransitionLocked ->
+// clearMessageEventStreamCacheForLostLocalAuthority invalidation runs on the before/after tables.
+func (n *Node) VerifUpdateRoute(revision uint64, leader1, leader2 uint64, owners []uint32) error {
+	snap, err := verifRouteSnapshot(revision, owners)
+	if err != nil {
+		return err
+	}
+	return n.updateRouteAuthorityTable(func() error {
+		if err := n.router.UpdateControlSnapshot(snap); err != nil {
+			return err
+		}
+		n.router.UpdateSlotLeaders([]routing.SlotStatus{
+			{SlotID: 1, Leader: leader1, LeaderTerm: revision},
+			{SlotID: 2, Leader: leader2, LeaderTerm: revision},
+		})
+		return nil
+	})
+}
+
+// VerifLoseMessageEventStreamCache simulates a process restart of the leader (empty cache).
 func (n *Node) VerifLoseMessageEventStreamCache(maxSessions int) {
 	n.messageEventStreamCache = newMessageEventStreamCache(maxSessions)
 }
